@@ -18,16 +18,16 @@ import (
 // Frame is the encoding of one function activation (the function under
 // contract, or an inlined callee / closure).
 type Frame struct {
-	fn       *ssa.Function
-	vals     map[ssa.Value]Val
-	isLocal  map[*ssa.Alloc]bool
-	freeVars []Val
-	parent   *Frame
-	depth    int
-	byName   map[string][]*ssa.Alloc
-	closures map[ssa.Value]*closureRec
-	reach    map[*ssa.BasicBlock]string
-	edgeCond map[edgeKey]string
+	fn        *ssa.Function
+	vals      map[ssa.Value]Val
+	isLocal   map[*ssa.Alloc]bool
+	freeVars  []Val
+	parent    *Frame
+	depth     int
+	byName    map[string][]*ssa.Alloc
+	closures  map[ssa.Value]*closureRec
+	reach     map[*ssa.BasicBlock]string
+	edgeCond  map[edgeKey]string
 	callBlock *ssa.BasicBlock // block of the call site (inlined activations)
 }
 
@@ -46,28 +46,33 @@ type retRec struct {
 // FnEnc encodes one function under contract.
 type FnEnc struct {
 	Enc
-	eng      *Eng
-	fn       *ssa.Function
-	con      *Contract
-	st0      *State // state at entry (what old() refers to)
-	params   map[string]Val
-	top      *Frame
-	safe     bool
-	counters map[string]int
-	callOrd  map[string]int
-	epoch    int
-	curFrame *Frame
-	curGuard string
-	curPos   token.Pos
-	loopOrd  int
-	nilChecked map[string][]string
-	writes     []writeRec
-	writePos   []token.Pos
-	entryRegions *[]Region // the function's modifies clause evaluated at entry
+	eng          *Eng
+	fn           *ssa.Function
+	con          *Contract
+	st0          *State // state at entry (what old() refers to)
+	params       map[string]Val
+	top          *Frame
+	safe         bool
+	counters     map[string]int
+	callOrd      map[string]int
+	epoch        int
+	curFrame     *Frame
+	curGuard     string
+	curPos       token.Pos
+	loopOrd      int
+	nilChecked   map[string][]string
+	writes       []writeRec
+	writePos     []token.Pos
+	entryRegions *[]Region      // the function's modifies clause evaluated at entry
 	callResults  map[string]Val // "<short name>#<ordinal>" -> result of that call
 	lastCall     string
+	mapVers      map[string]int    // digest of the map heaps -> version number (pureResult)
+	pureDone     map[string]bool   // postconditions already assumed for a pure application
+	eqState      *State            // state in which == on interface values loads boxed contents
+	topCallKey   string            // key of the last call numbered in the function under contract itself
+	callStates   map[string]*State // "<short name>#<ordinal>" -> state right after that call
 	curBlock     *ssa.BasicBlock
-	loopFrames   []loopFrame // loops with an explicit loopmodifies clause: regions at the loop head
+	loopFrames   []loopFrame       // loops with an explicit loopmodifies clause: regions at the loop head
 	srcOrd       map[token.Pos]int // call position -> ordinal among the calls of the same name, in source order
 	curCallPos   token.Pos
 }
@@ -306,7 +311,20 @@ func (f *FnEnc) globalRef(g *ssa.Global) string {
 	name := "glob!" + sanitize(g.Pkg.Pkg.Path()+"."+g.Name())
 	if !f.c.globals[name] {
 		f.c.raw(fmt.Sprintf("(declare-const %s Int)", name))
-		f.c.assume("true", and("(< 0 "+name+")", "(< "+name+" "+f.st0.alloc+")", "(< (objtype "+name+") 1000)"))
+		// the allocation type of the variable's object follows its type, as
+		// for objects allocated by new/make
+		tagFact := "(< (objtype " + name + ") 1000)"
+		if f.objTypes != nil {
+			gt := derefType(g.Type())
+			var elem types.Type
+			if at, ok := gt.Underlying().(*types.Array); ok {
+				elem = at.Elem()
+			}
+			if tag, ok := f.objTypes.allocTag(gt, elem); ok {
+				tagFact = eq("(objtype "+name+")", tag)
+			}
+		}
+		f.c.assume("true", and("(< 0 "+name+")", "(< "+name+" "+f.st0.alloc+")", tagFact))
 		for _, other := range sortedKeys(f.c.globals) {
 			f.c.assume("true", not(eq(name, other)))
 		}
@@ -376,6 +394,11 @@ type loopInfo struct {
 	ord      int
 	modLocal map[*ssa.Alloc]bool
 	writes   bool // heap may be written in the loop
+	// lock ghosts of global mutexes at the loop head (loops whose havoc is
+	// "everything": they are implicit invariants, see havocLoop)
+	lockCells []Addr
+	lockNames []string
+	lockVals  []string
 }
 
 func isBackEdge(from, to *ssa.BasicBlock) bool { return to.Dominates(from) }
@@ -707,12 +730,13 @@ func (f *FnEnc) encodeBody(fr *Frame, entry *State, guard string) []retRec {
 		type inEdge struct {
 			cond string
 			st   *State
+			from *ssa.BasicBlock
 		}
 		var ins []inEdge
 		var backs []inEdge
 		_ = backs
 		if b == fn.Blocks[0] {
-			ins = append(ins, inEdge{guard, entry})
+			ins = append(ins, inEdge{guard, entry, nil})
 		}
 		for _, p := range b.Preds {
 			if isBackEdge(p, b) {
@@ -724,7 +748,7 @@ func (f *FnEnc) encodeBody(fr *Frame, entry *State, guard string) []retRec {
 			}
 			for si, s := range p.Succs {
 				if s == b {
-					ins = append(ins, inEdge{edgeCond[edgeKey{p, si}], ps})
+					ins = append(ins, inEdge{edgeCond[edgeKey{p, si}], ps, p})
 				}
 			}
 		}
@@ -753,6 +777,15 @@ func (f *FnEnc) encodeBody(fr *Frame, entry *State, guard string) []retRec {
 								res = append(res, f.val(fr, r))
 							}
 							rets = append(rets, retRec{guard: RK, st: stK, results: res, pos: f.curPos})
+							if f.eng.traceCalls && fr == f.top && e.from != nil {
+								last := token.NoPos
+								for _, pi := range e.from.Instrs {
+									if pp := pi.Pos(); pp.IsValid() {
+										last = pp
+									}
+								}
+								fmt.Printf("  return #%d (line %d) reached from block %d ending at line %d\n", len(rets), f.pos(f.curPos).Line, e.from.Index, f.pos(last).Line)
+							}
 						default:
 							f.instr(fr, stK, RK, in)
 						}
@@ -824,6 +857,15 @@ func (f *FnEnc) encodeBody(fr *Frame, entry *State, guard string) []retRec {
 				li := loops[s]
 				ls := f.loopSpec(fr, li)
 				f.checkInvariant(fr, li, ls, st, edgeCond[edgeKey{b, si}], "preserved")
+				for i, a := range li.lockCells {
+					nm := fmt.Sprintf("/invariant-preserved:loop%d:lock-balanced:%s", li.ord, li.lockNames[i])
+					if n := f.nextOrd(fr.fn.Name() + nm); n > 1 {
+						nm += fmt.Sprintf("#%d", n)
+					}
+					f.c.oblige(Item{Guard: edgeCond[edgeKey{b, si}], Formula: eq(f.loadLeaf(st, SBool, a), li.lockVals[i]),
+						Name: f.eng.fnKey(fr.fn) + nm, Class: "invariant",
+						Pos: f.pos(f.curPos), Text: "held(" + li.lockNames[i] + ") at the end of an iteration is as at the loop head (implicit invariant of a loop that may modify everything)"})
+				}
 			}
 		}
 	}
@@ -975,8 +1017,8 @@ func sortedHeapKeys(m map[string]string) []string {
 }
 
 type loopFrame struct {
-	fr   *Frame
-	li   *loopInfo
-	rs   []Region
+	fr    *Frame
+	li    *loopInfo
+	rs    []Region
 	alloc string // allocation counter at the loop head: objects allocated in the loop are >= it
 }
